@@ -22,6 +22,8 @@ type c09State struct {
 	keys      []string
 	versionID string // a real version id, if any
 	uploadID  string // a pending upload id, if any
+	hostStyle bool   // the multipart canary addresses the bucket through the Host header
+	mpInst    *impl.Instance
 }
 
 // prepare brings the store into one of the reachable state classes
@@ -48,7 +50,7 @@ func c09Prepare(c *Ctx, inst *impl.Instance, r *Runner, class string) c09State {
 		put("k1", "second version")
 		resp := inst.Do(impl.Req{Method: "PUT", Path: r.path(st.bucket, "k1"), Body: bytes.NewReader([]byte("third version"))})
 		st.versionID = resp.Header.Get("X-Amz-Version-Id")
-		inst.Do(impl.Req{Method: "DELETE", Path: r.path(st.bucket, "dir/k2")})                                          // delete marker
+		inst.Do(impl.Req{Method: "DELETE", Path: r.path(st.bucket, "dir/k2")})                                                  // delete marker
 		inst.Do(impl.Req{Method: "DELETE", Path: r.path(st.bucket, "k1"), Query: "versionId=" + url.QueryEscape(st.versionID)}) // deleted current version
 	}
 	if class == "uploads" {
@@ -68,8 +70,133 @@ func pick(c *Ctx, xs []string) string { return xs[c.Rng.Intn(len(xs))] }
 
 var c09Ints = []string{"-9223372036854775808", "-1", "0", "1", "2", "999", "1000", "1001", "10000", "10001", "2147483648", "9223372036854775807", "9223372036854775808", "99999999999999999999", "abc", "", "1.5", "0x10", " 1", "+1"}
 
+// c09NearValid draws a request from the mostly-valid stream: a well-formed S3 operation on the
+// prepared state (real keys, the real pending upload, the real version id) with at most one
+// deviation (a wrong ETag, a descending or empty part list, an absurd part number, a torn body).
+func c09NearValid(c *Ctx, st c09State, hostMode bool) (impl.Req, string) {
+	rq := impl.Req{Header: map[string]string{}}
+	keys := append([]string{"k1", "dir/k2", "missing", "mp/obj"}, st.keys...)
+	k := pick(c, keys)
+	q := url.Values{}
+	var body []byte
+	part := func(n int, etag string) string {
+		return fmt.Sprintf("<Part><PartNumber>%d</PartNumber><ETag>%s</ETag></Part>", n, etag)
+	}
+	e := func(n int) string { return "\"" + etagOf([]byte(fmt.Sprintf("part-%d", n))) + "\"" }
+	up := st.uploadID
+	if up == "" || c.Rng.Intn(8) == 0 {
+		up = pick(c, []string{"99999", "1", "abc"})
+	}
+	switch c.Rng.Intn(16) {
+	case 0:
+		rq.Method = "PUT"
+		body = c.randBytes(c.Rng.Intn(64))
+	case 1:
+		rq.Method = "GET"
+		if c.Rng.Intn(2) == 0 {
+			rq.Header["Range"] = pick(c, c11Boundary)
+		}
+	case 2:
+		rq.Method = pick(c, []string{"HEAD", "DELETE"})
+	case 3:
+		rq.Method = "PUT"
+		rq.Header["X-Amz-Copy-Source"] = "/" + st.bucket + "/" + pick(c, keys)
+	case 4:
+		rq.Method, k = "GET", ""
+		q.Set("prefix", pick(c, []string{"", "dir/", "d"}))
+		if c.Rng.Intn(2) == 0 {
+			q.Set("delimiter", "/")
+		}
+		if c.Rng.Intn(2) == 0 {
+			q.Set("list-type", "2")
+		}
+		q.Set("max-keys", pick(c, []string{"1", "2", "1000", "0"}))
+	case 5:
+		rq.Method, k = "GET", ""
+		q.Set("versions", "")
+		q.Set("key-marker", pick(c, []string{"", "k1", "dir/k2"}))
+	case 6:
+		rq.Method = "POST"
+		q.Set("uploads", "")
+	case 7, 8:
+		rq.Method, k = "PUT", "mp/obj"
+		q.Set("uploadId", up)
+		q.Set("partNumber", pick(c, []string{"1", "2", "3", "5", "10000", "10001", "0", "-1", "x"}))
+		body = []byte("part-" + q.Get("partNumber"))
+		if c.Rng.Intn(6) == 0 {
+			rq.Header["Content-Length"] = "99"
+		}
+	case 9, 10, 11:
+		// complete: mostly rejected variants (the pending upload must stay usable afterwards)
+		rq.Method, k = "POST", "mp/obj"
+		q.Set("uploadId", up)
+		var ps string
+		switch c.Rng.Intn(9) {
+		case 0:
+			ps = part(1, e(1)) + part(3, e(3)) + part(7, e(7)) // acceptable when untouched
+		case 1:
+			ps = part(3, e(3)) + part(1, e(1)) // descending
+		case 2:
+			ps = part(1, e(1)) + part(2, e(2)) // never uploaded
+		case 3:
+			ps = part(1, "\"00000000000000000000000000000000\"") // wrong ETag
+		case 4:
+			ps = "" // empty list
+		case 5:
+			ps = part(1, e(1)) + part(1, e(1)) // repeated
+		case 6:
+			ps = part(1, e(1)) + part(3, e(3)) + part(7, e(7)) + part(9, e(9)) + part(11, e(11)) // more than uploaded
+		case 7:
+			ps = part(0, e(1)) + part(10001, e(3))
+		default:
+			ps = part(1, e(1)) + "<Part><PartNumber>3</Part"
+		}
+		body = []byte("<CompleteMultipartUpload>" + ps + "</CompleteMultipartUpload>")
+	case 12:
+		rq.Method, k = "GET", "mp/obj"
+		q.Set("uploadId", up)
+		q.Set("max-parts", pick(c, []string{"1", "2", "1000", "0"}))
+		q.Set("part-number-marker", pick(c, []string{"", "0", "1", "3", "9999"}))
+	case 13:
+		rq.Method, k = "GET", ""
+		q.Set("uploads", "")
+		q.Set("prefix", pick(c, []string{"", "mp/", "o"}))
+	case 14:
+		rq.Method, k = "POST", ""
+		q.Set("delete", "")
+		body = []byte("<Delete><Object><Key>" + pick(c, keys) + "</Key></Object><Object><Key>missing</Key></Object></Delete>")
+	default:
+		if c.Rng.Intn(4) == 0 {
+			rq.Method, k = "DELETE", "mp/obj" // abort (the canary re-creates the pending upload)
+			q.Set("uploadId", up)
+		} else {
+			rq.Method = "GET"
+			if st.versionID != "" {
+				q.Set("versionId", st.versionID)
+			}
+		}
+	}
+	rq.Path = "/" + impl.EscapePath(st.bucket)
+	if k != "" {
+		rq.Path += "/" + impl.EscapePath(k)
+	}
+	if hostMode {
+		rq.Host = st.bucket + ".s3.test"
+		rq.Path = "/" + impl.EscapePath(k)
+	}
+	rq.Query = q.Encode()
+	if body != nil {
+		rq.Body = bytes.NewReader(body)
+	}
+	desc := fmt.Sprintf("%s %s?%s host=%q hdr=%v body=%q", rq.Method, trunc(rq.Path, 60), trunc(rq.Query, 120), rq.Host, hdrDesc(rq.Header), trunc(string(body), 200))
+	return rq, desc
+}
+
 // c09Request draws one request from the grammar of the routed surface.
 func c09Request(c *Ctx, st c09State, hostMode bool) (impl.Req, string) {
+	if c.Rng.Intn(3) == 0 {
+		return c09NearValid(c, st, hostMode)
+	}
 	methods := []string{"GET", "GET", "GET", "PUT", "PUT", "POST", "DELETE", "HEAD", "PATCH", "OPTIONS", "FOO"}
 	keys := append([]string{"k1", "dir/k2", "dir/sub/k3", "missing", "mp/obj", "dir/", "a/../b", "..", ".", "%zz", "k 1", "ü", strings.Repeat("x", 1025), "_meta", "k1/under"}, st.keys...)
 	buckets := []string{st.bucket, st.bucket, st.bucket, "bk2", "nosuchbucket", "_meta", ".", "UPPER", "ab", strings.Repeat("b", 70)}
@@ -264,12 +391,16 @@ func c09Wellformed(c *Ctx, method string, resp impl.Resp) (bool, string) {
 }
 
 // canary: afterwards the server still answers correct requests on this and on another bucket
-func c09Canary(c *Ctx, inst *impl.Instance, bucket string, n int) string {
+func c09Canary(c *Ctx, inst *impl.Instance, st *c09State, n int) string {
+	bucket := st.bucket
 	bs := []string{bucket}
 	if !inst.IsSingle() {
 		bs = append(bs, "canary-bkt")
 		inst.Do(impl.Req{Method: "PUT", Path: "/canary-bkt"})
 		inst.Do(impl.Req{Method: "PUT", Path: "/" + bucket})
+	}
+	if bad := c09MultipartCanary(inst, st, n); bad != "" {
+		return bad
 	}
 	for _, b := range bs {
 		key := fmt.Sprintf("canary/%d", n%3)
@@ -294,12 +425,105 @@ func c09Canary(c *Ctx, inst *impl.Instance, bucket string, n int) string {
 	return ""
 }
 
+// c09Styled sends path-style requests as they are, or rewrites them to host style
+type c09Styled struct {
+	inst  *impl.Instance
+	host  string
+	strip string
+}
+
+func (s *c09Styled) Do(rq impl.Req) impl.Resp {
+	if s.host != "" {
+		rq.Host = s.host
+		rq.Path = strings.TrimPrefix(rq.Path, s.strip)
+		if rq.Path == "" {
+			rq.Path = "/"
+		}
+	}
+	return s.inst.Do(rq)
+}
+
+// the multipart part of the canary: the prepared pending upload (when the state has one) still
+// accepts a part and lists its parts, or is gone for a legitimate reason and is re-created; a
+// fresh upload on another key can be initiated, fed, completed and read back.
+func c09MultipartCanary(inst0 *impl.Instance, st *c09State, n int) string {
+	b := "/" + impl.EscapePath(st.bucket)
+	inst := &c09Styled{inst: inst0}
+	if st.hostStyle {
+		// pending uploads live in the gofakes3 instance under test, not in the backend
+		inst = &c09Styled{inst: st.mpInst, host: st.bucket + ".s3.test", strip: b}
+	}
+	mk := func() string {
+		resp := inst.Do(impl.Req{Method: "POST", Path: b + "/mp/obj", Query: "uploads"})
+		var d xmlInitiate
+		xml.Unmarshal(resp.Body, &d)
+		if resp.Status != 200 || d.UploadID == "" {
+			return ""
+		}
+		for _, pn := range []string{"1", "3", "7"} {
+			inst.Do(impl.Req{Method: "PUT", Path: b + "/mp/obj", Query: "uploadId=" + d.UploadID + "&partNumber=" + pn, Body: bytes.NewReader([]byte("part-" + pn))})
+		}
+		return d.UploadID
+	}
+	if st.uploadID != "" {
+		r := inst.Do(impl.Req{Method: "PUT", Path: b + "/mp/obj", Query: "uploadId=" + st.uploadID + "&partNumber=9000", Body: bytes.NewReader([]byte("canary-part"))})
+		switch {
+		case r.Hang || r.Panic != "":
+			return fmt.Sprintf("canary UploadPart on the pending upload -> hang=%v %s", r.Hang, trunc(r.Panic, 80))
+		case r.Status == 404 && r.ErrCode() == "NoSuchUpload":
+			// completed or aborted by the request under test: a new pending upload takes its place
+			if st.uploadID = mk(); st.uploadID == "" {
+				return "canary: cannot initiate a new multipart upload"
+			}
+		case r.Status != 200:
+			return fmt.Sprintf("canary UploadPart on the pending upload -> %d %s", r.Status, r.ErrCode())
+		default:
+			r = inst.Do(impl.Req{Method: "GET", Path: b + "/mp/obj", Query: "uploadId=" + st.uploadID})
+			if r.Status != 200 || !bytes.Contains(r.Body, []byte("<PartNumber>9000</PartNumber>")) {
+				return fmt.Sprintf("canary ListParts on the pending upload -> %d hang=%v %s", r.Status, r.Hang, r.ErrCode())
+			}
+		}
+	}
+	if n%4 != 0 {
+		return ""
+	}
+	key := b + "/canary-mp"
+	resp := inst.Do(impl.Req{Method: "POST", Path: key, Query: "uploads"})
+	var d xmlInitiate
+	xml.Unmarshal(resp.Body, &d)
+	if resp.Status != 200 || d.UploadID == "" {
+		return fmt.Sprintf("canary InitiateMultipartUpload -> %d hang=%v %s", resp.Status, resp.Hang, resp.ErrCode())
+	}
+	r := inst.Do(impl.Req{Method: "PUT", Path: key, Query: "uploadId=" + d.UploadID + "&partNumber=1", Body: bytes.NewReader([]byte("cp1"))})
+	if r.Status != 200 {
+		return fmt.Sprintf("canary UploadPart -> %d hang=%v %s", r.Status, r.Hang, r.ErrCode())
+	}
+	// a rejected complete, then the accepted one
+	r = inst.Do(impl.Req{Method: "POST", Path: key, Query: "uploadId=" + d.UploadID, Body: bytes.NewReader([]byte("<CompleteMultipartUpload><Part><PartNumber>1</PartNumber><ETag>\"0\"</ETag></Part></CompleteMultipartUpload>"))})
+	if r.Status != 400 {
+		return fmt.Sprintf("canary rejected CompleteMultipartUpload -> %d hang=%v %s", r.Status, r.Hang, r.ErrCode())
+	}
+	r = inst.Do(impl.Req{Method: "POST", Path: key, Query: "uploadId=" + d.UploadID, Body: bytes.NewReader([]byte("<CompleteMultipartUpload><Part><PartNumber>1</PartNumber><ETag>\"" + etagOf([]byte("cp1")) + "\"</ETag></Part></CompleteMultipartUpload>"))})
+	if r.Status != 200 {
+		return fmt.Sprintf("canary CompleteMultipartUpload -> %d hang=%v %s", r.Status, r.Hang, r.ErrCode())
+	}
+	r = inst.Do(impl.Req{Method: "GET", Path: key})
+	if r.Status != 200 || string(r.Body) != "cp1" {
+		return fmt.Sprintf("canary GET of the completed object -> %d %q", r.Status, trunc(string(r.Body), 20))
+	}
+	r = inst.Do(impl.Req{Method: "DELETE", Path: key})
+	if r.Status != 204 {
+		return fmt.Sprintf("canary DELETE of the completed object -> %d", r.Status)
+	}
+	return ""
+}
+
 func runC09(c *Ctx) {
 	nReq := 1500
 	if c.Thorough() {
 		nReq = 40000
 	}
-	c.R.Rule = fmt.Sprintf("%d requests per backend instance drawn from a grammar of the routed surface (methods incl. unknown ones; service/bucket/object paths incl. hostile keys and names; sub-resources uploads, uploadId, partNumber, versioning, versions, versionId, delete, location, list-type, prefix, delimiter, marker, max-keys, continuation-token, start-after, key-marker, version-id-marker, upload-id-marker, max-uploads, max-parts, part-number-marker with absurd numeric and junk values; Range, copy-source, Content-MD5, streaming/decoded-length, conditional, force-delete and oversized metadata headers; empty, random, valid and malformed XML and multipart-form bodies; mismatching Content-Length), issued against stores in the states {empty, objects, versioned with a delete marker and a deleted current version, pending uploads with gaps} with the options {default, host-bucket, auto-bucket, no-versioning}; each answer must be a complete response (no panic, no hang) that is a success or an error whose body is empty or an S3 error document with a code whose table status (re-read from error.go, evaluated by the Lean driver) equals the response status; every request is followed by a canary (PUT/GET/LIST/DELETE on the same and on another bucket); declared lengths are capped at 1 MiB (resource exhaustion is outside the property); non-trivial = distinct request answered with an error", nReq)
+	c.R.Rule = fmt.Sprintf("%d requests per backend instance drawn from a grammar of the routed surface (methods incl. unknown ones; service/bucket/object paths incl. hostile keys and names; sub-resources uploads, uploadId, partNumber, versioning, versions, versionId, delete, location, list-type, prefix, delimiter, marker, max-keys, continuation-token, start-after, key-marker, version-id-marker, upload-id-marker, max-uploads, max-parts, part-number-marker with absurd numeric and junk values; Range, copy-source, Content-MD5, streaming/decoded-length, conditional, force-delete and oversized metadata headers; empty, random, valid and malformed XML and multipart-form bodies; mismatching Content-Length), issued against stores in the states {empty, objects, versioned with a delete marker and a deleted current version, pending uploads with gaps} with the options {default, host-bucket, auto-bucket, no-versioning}; each answer must be a complete response (no panic, no hang) that is a success or an error whose body is empty or an S3 error document with a code whose table status (re-read from error.go, evaluated by the Lean driver) equals the response status; one request in three comes from a mostly-valid stream (a well-formed operation on the prepared keys, version and pending upload with at most one deviation: rejected and accepted Complete variants, part uploads, aborts, ranged reads, copies, listings); every request is followed by a canary (a part upload and ListParts on the pending upload, every fourth time a whole initiate/part/rejected-complete/complete/GET/DELETE cycle, then PUT/GET/LIST/DELETE on the same and on another bucket); declared lengths are capped at 1 MiB (resource exhaustion is outside the property); non-trivial = distinct request answered with an error", nReq)
 	type optSet struct {
 		name string
 		opts []gofakes3.Option
@@ -328,6 +552,10 @@ func runC09(c *Ctx) {
 				}
 				canaryInst := inst
 				if hostMode {
+					st.hostStyle, st.mpInst = true, inst
+					if st.uploadID != "" {
+						st.uploadID = "0" // the twin's upload is unknown to this instance: the canary re-creates it
+					}
 					canaryInst = &impl.Instance{Kind: kind, Backend: inst.Backend, G: gofakes3.New(inst.Backend, gofakes3.WithTimeSkewLimit(0))}
 					canaryInst.H = canaryInst.G.Server()
 				}
@@ -357,7 +585,7 @@ func runC09(c *Ctx) {
 						c.nontrivial(kind + "|" + desc)
 					}
 					c.hist(fmt.Sprintf("status:%d", resp.Status))
-					if bad := c09Canary(c, canaryInst, st.bucket, i); bad != "" {
+					if bad := c09Canary(c, canaryInst, &st, i); bad != "" {
 						c.mismatch(Mismatch{Kind: "spec", Backend: kind, Case: append([]string{"options=" + os.name + " state=" + class}, history...), Impl: bad,
 							Spec: "afterwards the server still answers correct requests correctly", Finger: "c09:wedged:" + c09Class(rq)})
 						break
